@@ -75,6 +75,11 @@ def check_datum_ops(chk, prog, sim):
                 chk.violation(rule, key, "%s: %s %s" % (imp["trait_ref"], leaf.kind, leaf.info.get("msg")), site=K.leaf_site(leaf))
                 ok = False
                 continue
+            ta = K.time_arith(leaf)
+            if ta:
+                chk.violation("C03.datum-op", key + ":time-arithmetic", "%s does integer arithmetic on a timestamp (%s %s %s) instead of comparing: overflows for near-extreme timestamps" % ((imp["trait_ref"],) + tuple(ta[0])),
+                              fn=fn["pretty"], file=loc(fn["span"]))
+                ok = False
             res = leaf.state.mem[a0.ptr.obj] if tr in OPSA else leaf.value
             t, p = datum_parts(sim, leaf.state, res)
             if t is None:
@@ -124,6 +129,11 @@ def check_helpers(chk, prog, sim):
                 chk.violation("analysis-incomplete" if leaf.kind == "unsupported" else "C03.replace", key, "%s: %s %s" % (fn["name"], leaf.kind, leaf.info.get("msg")))
                 ok = False
                 continue
+            ta = K.time_arith(leaf)
+            if ta:
+                chk.violation("C03.replace", key + ":time-arithmetic", "%s does integer arithmetic on a timestamp (%s %s %s) instead of comparing: overflows for near-extreme timestamps" % ((fn["name"],) + tuple(ta[0])),
+                              fn=fn["pretty"], file=loc(fn["span"]))
+                ok = False
             ret = sim.resolve(leaf.state, leaf.value)
             if not isinstance(ret, Const):
                 chk.violation("C03.replace", key, "%s: returned flag undetermined" % fn["name"])
@@ -193,6 +203,10 @@ def check_helpers(chk, prog, sim):
             chk.violation("analysis-incomplete" if leaf.kind == "unsupported" else "C03.latest", key, "latest: %s %s" % (leaf.kind, leaf.info.get("msg")))
             ok = False
             continue
+        ta = K.time_arith(leaf)
+        if ta:
+            chk.violation("C03.latest", key + ":time-arithmetic", "latest() does integer arithmetic on a timestamp (%s %s %s) instead of comparing: overflows for near-extreme timestamps" % tuple(ta[0]), fn=fl["pretty"], file=loc(fl["span"]))
+            ok = False
         r = sim.final_value(leaf.state, leaf.value)
         fa, fb = sim.final_value(leaf.state, a), sim.final_value(leaf.state, b)
         t, _ = datum_parts(sim, leaf.state, r)
@@ -223,6 +237,19 @@ def run(chk):
     for name in ["SumStream", "ProductStream", "Latest"]:
         for k in range(1, maxn + 1):
             C02.run_stream(sub, prog, sim, name, k)
+    # a float-provider-specific fast path must keep the timestamp rule: the two-input streams again on K3 (micromath only)
+    p3 = load_config("K3")
+    chk.configs.append("K3")
+    s3 = S.Sim(p3)
+    sub3 = __import__("report").Check("C03", chk.tier)
+    for name in ["DifferenceStream", "QuotientStream", "ExponentStream", "Sum2", "Product2"]:
+        if p3.has_adt(name):
+            C02.run_stream(sub3, p3, s3, name)
+    chk.evaluations += sub3.evaluations
+    for v in sub3.violations:
+        if v["rule"] == "C02.pure":
+            continue
+        chk.violation("C03.stream" if v["rule"].startswith("C02") else v["rule"], v["key"] + "@K3", "[no_std + micromath] " + v["what"], **v["detail"])
     for k, d in sub.obligations.items():
         chk.obligation("stream-" + k, d)
         if k in sub.discharged:
@@ -239,6 +266,17 @@ def run(chk):
     try:
         import devkit
         devkit.check_c03(chk, prog, sim)
+        # the selections must not depend on the profile: in a release build debug_assert!(..) and its argument are gone, so a
+        # store wrapped in one silently disappears (K6 = default features, --release)
+        import report
+        p6 = load_config("K6")
+        chk.configs.append("K6")
+        sub6 = report.Check("C03", chk.tier)
+        devkit.check_c03(sub6, p6, S.Sim(p6))
+        check_helpers(sub6, p6, S.Sim(p6))
+        chk.evaluations += sub6.evaluations
+        for v in sub6.violations:
+            chk.violation(v["rule"], v["key"] + "@K6", "[release profile] " + v["what"], **v["detail"])
     except ImportError:
         chk.notes.append("devkit not available: terminal/device obligations not evaluated")
     # device updates: written states carry the newest contributing time (shared simulation with C08)
